@@ -37,14 +37,32 @@ const MAX_GUARD_SIZE: usize = 9;
 /// whether the user state uses it or not.
 ///
 /// Lifetime `'static` is ignored as `'static` cannot be added as a lifetime parameter.
+///
+/// Lifetimes introduced by a `for<...>` binder inside the type (e.g. `for<'x> fn(&'x str)`) are
+/// ignored as they are already declared by the binder.
 struct LifetimeVisitor<'a> {
     lifetimes: &'a mut Vec<syn::Lifetime>,
+    bound_lifetimes: Vec<syn::Lifetime>,
 }
 
 impl<'ast> Visit<'ast> for LifetimeVisitor<'_> {
     fn visit_lifetime(&mut self, node: &'ast syn::Lifetime) {
-        if node.ident != "static" && node.ident != "input" && !self.lifetimes.contains(node) {
+        if node.ident != "static"
+            && node.ident != "input"
+            && !self.bound_lifetimes.contains(node)
+            && !self.lifetimes.contains(node)
+        {
             self.lifetimes.push(node.clone())
+        }
+    }
+
+    fn visit_bound_lifetimes(&mut self, node: &'ast syn::BoundLifetimes) {
+        // A lifetime name can't be shadowed, so the names bound here can't be used for other
+        // lifetimes in the rest of the type
+        for param in &node.lifetimes {
+            if let syn::GenericParam::Lifetime(param) = param {
+                self.bound_lifetimes.push(param.lifetime.clone());
+            }
         }
     }
 }
@@ -105,6 +123,7 @@ pub fn generate(
             {
                 let mut visitor = LifetimeVisitor {
                     lifetimes: &mut lifetimes,
+                    bound_lifetimes: Vec::new(),
                 };
                 visitor.visit_type(&ty);
             }
